@@ -3,6 +3,7 @@ CONSTANTS
   MaxCombs = @MAXCOMBS@
   MutW = @MUTW@
   Sem = @SEM@
+  LayoutSel = @LAYOUTS@
   ArithInBodyByValue = TRUE
   LowerNames <- LowerNamesMC
 INIT Init
